@@ -195,7 +195,19 @@ class Summarizer:
             if isinstance(st.value, ast.Constant):
                 return [p]
             if isinstance(st.value, ast.Call):
-                return self._call_stmt(st.value, st, p, ci, dyn, depth, fn, mod)
+                call = st.value
+                outs = []
+                # arguments that are themselves multi-statement self-calls are evaluated first
+                argexp = ast.Tuple(list(call.args) + [k.value for k in call.keywords], ast.Load())
+                for q, tup in self._expand_calls(argexp, st, p, ci, dyn, depth):
+                    if q.end is not None:
+                        outs.append(q)
+                        continue
+                    n_pos = len(call.args)
+                    call2 = ast.Call(call.func, list(tup.elts[:n_pos]), [ast.keyword(k.arg, v) for k, v in zip(call.keywords, tup.elts[n_pos:])])
+                    ast.copy_location(call2, call)
+                    outs += self._call_stmt(call2, st, q, ci, dyn, depth, fn, mod)
+                return outs
             return [p]
         if isinstance(st, ast.Pass):
             return [p]
@@ -203,10 +215,16 @@ class Summarizer:
             p.events.append(Ev('assert', st, test=S(st.test)))
             return [p]
         if isinstance(st, ast.Return):
-            val = S(st.value) if st.value is not None else None
-            val = self._inline_expr(val, p, ci, dyn, depth) if val is not None else None
-            p.end = ('return', val, st)
-            return [p]
+            outs = []
+            for q, v0 in self._expand_args(st.value, st, p, ci, dyn, depth):
+                if q.end is not None:
+                    outs.append(q)
+                    continue
+                val = subst(v0, q.env) if v0 is not None else None
+                val = self._inline_expr(val, q, ci, dyn, depth) if val is not None else None
+                q.end = ('return', val, st)
+                outs.append(q)
+            return outs
         if isinstance(st, ast.Raise):
             p.end = ('raise', S(st.exc) if st.exc is not None else None, st)
             return [p]
@@ -217,11 +235,17 @@ class Summarizer:
             b.events.append(Ev('cond', st, test=test, polarity=False))
             return self._body(st.body, [a], ci, dyn, depth, fn, mod) + self._body(st.orelse, [b], ci, dyn, depth, fn, mod)
         if isinstance(st, ast.Assign):
-            val = self._inline_expr(S(st.value), p, ci, dyn, depth)
-            self._record_calls_in(val, st, p)
-            for t in st.targets:
-                self._assign(t, val, st, p)
-            return [p]
+            outs = []
+            for q, v0 in self._expand_args(st.value, st, p, ci, dyn, depth):
+                if q.end is not None:
+                    outs.append(q)
+                    continue
+                val = self._inline_expr(subst(v0, q.env), q, ci, dyn, depth)
+                self._record_calls_in(val, st, q)
+                for t in st.targets:
+                    self._assign(t, val, st, q)
+                outs.append(q)
+            return outs
         if isinstance(st, ast.AnnAssign):
             if st.value is not None:
                 val = self._inline_expr(S(st.value), p, ci, dyn, depth)
@@ -473,6 +497,97 @@ class Summarizer:
             return res
         self._record_call(call_s, st, p)
         return [p]
+
+    def _run_callee(self, cci, cfn, call_s, st, p: Path, dyn, depth):
+        """Paths of the callee started from p; each result is (path, returned expression | None); a path that ends in raise
+        keeps its end."""
+        penv = self._bind(cci, cfn, call_s, p)
+        sub = p.fork()
+        saved_locals = {k: v for k, v in p.env.items() if not k.startswith('self.')}
+        sub.env = {k: v for k, v in p.env.items() if k.startswith('self.')}
+        sub.env.update(penv)
+        sub.events.append(Ev('enter', st, callee=f'{cci.name}.{cfn.name}'))
+        outs = self._body(cfn.body, [sub], cci, dyn, depth + 1, cfn, cci.module)
+        res = []
+        for o in outs:
+            o.events.append(Ev('exit', st, callee=f'{cci.name}.{cfn.name}'))
+            selfstate = {k: v for k, v in o.env.items() if k.startswith('self.')}
+            o.env = dict(saved_locals)
+            o.env.update(selfstate)
+            val = None
+            if o.end is None or o.end[0] == 'fall':
+                o.end, val = None, ast.Constant(None)
+            elif o.end[0] == 'return':
+                val = o.end[1] if o.end[1] is not None else ast.Constant(None)
+                o.end = None
+            res.append((o, val))
+        return res
+
+    def _expand_args(self, e: ast.AST, st, p: Path, ci, dyn, depth) -> list:
+        """Like _expand_calls, but a call at the top of `e` is kept as a call (rules recognise `return self.m(x)` shapes):
+        only the calls nested in its arguments are evaluated."""
+        if isinstance(e, ast.Call):
+            argexp = ast.Tuple(list(e.args) + [k.value for k in e.keywords], ast.Load())
+            out = []
+            for q, tup in self._expand_calls(argexp, st, p, ci, dyn, depth):
+                if q.end is not None:
+                    out.append((q, None))
+                    continue
+                n_pos = len(e.args)
+                e2 = ast.Call(e.func, list(tup.elts[:n_pos]), [ast.keyword(k.arg, v) for k, v in zip(e.keywords, tup.elts[n_pos:])])
+                ast.copy_location(e2, e)
+                out.append((q, e2))
+            return out
+        return self._expand_calls(e, st, p, ci, dyn, depth)
+
+    def _expand_calls(self, e: ast.AST, st, p: Path, ci, dyn, depth) -> list:
+        """Evaluate the self-method calls with a multi-statement body that occur in expression `e` (innermost first, left to
+        right), forking the path per callee path: [(path, expression with the calls replaced by what they return)].  A path on
+        which a callee raises is returned ended, with expression None."""
+        if e is None or ci is None or depth >= MAX_DEPTH:
+            return [(p, e)]
+        cands = []
+        for n in ast.walk(e):
+            if isinstance(n, ast.Call):
+                tgt = self._resolve_self_call(n, ci, dyn)
+                if tgt is None or _has_loop(tgt[1]):
+                    continue
+                body = [x for x in tgt[1].body if not (isinstance(x, ast.Expr) and isinstance(x.value, ast.Constant))]
+                if len(body) == 1 and isinstance(body[0], ast.Return):
+                    continue        # single-expression callee: handled by _inline_expr
+                if tgt[0].method_kind(tgt[1].name) == 'property':
+                    continue
+                cands.append(n)
+        if not cands:
+            return [(p, e)]
+        # innermost first: a candidate none of whose descendants is a candidate
+        inner = [c for c in cands if not any(d is not c and d in cands for d in ast.walk(c))]
+        target = inner[0]
+        cci, cfn = self._resolve_self_call(target, ci, dyn)
+        out = []
+        for q, val in self._run_callee(cci, cfn, subst(target, p.env), st, p, dyn, depth):
+            if q.end is not None:
+                out.append((q, None))
+                continue
+
+            out += self._expand_rest(e, target, val, st, q, ci, dyn, depth)
+        return out
+
+    def _expand_rest(self, e, target, val, st, q, ci, dyn, depth):
+        """Replace `target` inside `e` by `val` (identity-based) and continue expanding."""
+        class R(ast.NodeTransformer):
+            def visit_Call(self, n):
+                if n is target:
+                    return val
+                self.generic_visit(n)
+                return n
+        if e is target:
+            e2 = val
+        else:
+            import copy as _copy
+            memo = {id(target): target}        # keep the identity of the target through the copy
+            e2 = R().visit(_copy.deepcopy(e, memo))
+        return self._expand_calls(e2, st, q, ci, dyn, depth)
 
     def _record_call(self, call_s: ast.Call, st, p: Path):
         f = call_s.func
